@@ -100,7 +100,19 @@ def h1(
     if isinstance(data, tuple) and isinstance(
         data[0], str
     ):  # Works for groupby DataSeries
-        return h1(data[1], bins, name=data[0], **kwargs)
+        return h1(
+            data[1],
+            bins,
+            adaptive=adaptive,
+            dropna=dropna,
+            dtype=dtype,
+            weights=weights,
+            keep_missed=keep_missed,
+            name=data[0],
+            title=title,
+            axis_name=axis_name,
+            **kwargs,
+        )
     if type(data).__name__ == "DataFrame":
         raise TypeError(
             "Cannot create a 1D histogram from a pandas DataFrame. Use Series."
